@@ -201,6 +201,8 @@ TRANSFER = {
     "C13": [("welfordRolling_rust", "WelfordRolling")],
     "C14": [("add_rust", "Add"), ("sub_rust", "Subtract"), ("mul_rust", "Multiply"), ("div_rust", "Divide"), ("tanh_rust", "Tanh")],
 }
+# `Realises` says "fed ANY history the view does not panic, and then reports ...": its first half is C15 for the translated text
+TRANSFER["C15"] = [t for pid in ("C02", "C04", "C05", "C11", "C13") for t in TRANSFER[pid]]
 # a generated view that embeds another generated view (its tie file imports the other's generated file)
 TIE_DEPENDS = {"Vst": ["WelfordOnline"], "Vsct": ["WelfordOnline"], "RoofingFilter": ["SuperSmoother"]}
 
